@@ -224,7 +224,7 @@ ForExit ==
 (* ScopesReclaimed: when a call ends and no closure was created while it ran, nothing can refer to the scopes it created
    (only closures hold scopes): they are dropped.  The machine would be correct without this; it keeps the state small
    in programs that call thousands of times. *)
-AfterCall(fr) == IF \E r \in (fr.vs[1] + 1)..Len(heap) : heap[r].t = "fn" THEN envs ELSE SubSeq(envs, 1, fr.i)
+AfterCall(fr) == IF "ReclaimAlways" \notin Broken /\ \E r \in (fr.vs[1] + 1)..Len(heap) : heap[r].t = "fn" THEN envs ELSE SubSeq(envs, 1, fr.i)
 CallFallsOff ==    \* the body ended without return: the call's value is nil
   /\ Done("call")
   /\ Goto([m |-> "val", v |-> VNil], Tail(kont)) /\ cur' = Head(kont).env /\ ln' = Head(kont).ln
